@@ -180,7 +180,12 @@ pub const R_M32K: usize = 23;
 pub const R_BOWNER_DROP_PANIC: usize = 24;
 /// BytesMut in the shared form from the start, full (len == capacity), sole handle: from(&[u8]) + split_off(len) dropped
 pub const R_MSHARED_FULL: usize = 25;
-pub const N_ROOTS: usize = 26;
+/// the remaining constructors (their representations coincide with other roots; explored to a small depth)
+pub const R_BFROM_STRING: usize = 26;
+pub const R_BFROMITER: usize = 27;
+pub const R_MFROM_STR: usize = 28;
+pub const R_MFROMITER_REF: usize = 29;
+pub const N_ROOTS: usize = 30;
 pub fn root_name(r: usize) -> &'static str {
     [
         "Bytes::new", "Bytes::from_static", "Bytes::from(Vec len==cap)", "Bytes::from(Vec spare)", "Bytes::from(Box<[u8]>)", "Bytes::from_owner",
@@ -189,6 +194,7 @@ pub fn root_name(r: usize) -> &'static str {
         "Bytes frozen from shared+unique+offset BytesMut", "BytesMut::with_capacity(1024)+put", "BytesMut shared+unique+offset, grown after promotion",
         "Bytes::from_owner(as_ref answers differently per call)", "Bytes::from_owner(Vec<u8>)", "Bytes::from(Vec len n, cap n+1)", "BytesMut::with_capacity(32768)+put",
         "Bytes::from_owner(drop panics)", "BytesMut shared+unique+full",
+        "Bytes::from(String)", "Bytes::from_iter", "BytesMut::from(&str)", "BytesMut::from_iter(&u8)",
     ][r]
 }
 
@@ -484,6 +490,17 @@ impl World {
                             v.extend_from_slice(&d);
                             H::B(Bytes::from(v))
                         }
+                        R_BFROM_STRING | R_MFROM_STR => {
+                            // ASCII text with the root's fresh byte values folded into the printable range
+                            let txt: String = d.iter().map(|&b| (b'A' + (b % 26)) as char).collect();
+                            if kind == R_BFROM_STRING {
+                                H::B(Bytes::from(txt))
+                            } else {
+                                H::M(BytesMut::from(&txt[..]))
+                            }
+                        }
+                        R_BFROMITER => H::B(d.iter().cloned().collect::<Bytes>()),
+                        R_MFROMITER_REF => H::M(d.iter().collect::<BytesMut>()),
                         R_MSHARED_FULL => {
                             let mut m = BytesMut::from(&d[..]);
                             drop(m.split_off(n));
@@ -548,6 +565,7 @@ impl World {
                     R_BNEW | R_MNEW | R_BVEC_EMPTY_CAP => vec![],
                     R_BSTATIC => STATIC4[..n.min(4)].to_vec(),
                     R_MZEROED => vec![0; n],
+                    R_BFROM_STRING | R_MFROM_STR => d.iter().map(|&b| b'A' + (b % 26)).collect(),
                     _ => d.clone(),
                 };
                 match r {
